@@ -4179,3 +4179,118 @@ def c11_anscombe():
             out.append(prove_eq(oid + '.masked-value', hy + list(p[0].pc), sval, want, fn))
         return out
     return go()
+
+
+def c05_admix_props(K):
+    """Spectrum._from_phi_KD_admix_props on a 2-point grid per axis (all grid points, phi values and the K x K proportion matrix A symbolic), sample
+    sizes all 1:  entry idx = tensor trapezoid rule of  prod_p  B(1, idx_p; sum_q A[p][q] x_q)  phi   where B(n, d; u) = C(n,d) u^d (1-u)^(n-d)
+    -- sampled individual p draws from population q with probability A[p][q]."""
+    oid = 'C05/Spectrum_mod.py:Spectrum._from_phi_%dD_admix_props' % K
+    fn = 'dadi/Spectrum_mod.py::Spectrum._from_phi_%dD_admix_props' % K
+
+    @guarded(oid, fn)
+    def go():
+        G = 2
+        ns = (1,) * K
+        grids = [reals('%s_' % GRIDS[a], G) for a in range(K)]
+        hy = [g[0] < g[1] for g in grids]
+        A = [[z3.Real('A%d%d' % (p, q)) for q in range(K)] for p in range(K)]
+        f0 = {i: z3.Real('phi' + '_'.join(map(str, i))) for i in itertools.product(*[range(G)] * K)}
+        phi = _nd_build((G,) * K, lambda i: f0[i])
+
+        def ah(ex_, fref, a, kw, ctx):
+            if (isinstance(fref, ClassRef) and fref.node.name == 'Spectrum') or (isinstance(fref, Tm) and 'Spectrum' in fref.op):
+                return a[0]
+            return NotImplemented
+        ex = Executor(policy=lambda fr: 'inline' if fr.qualname == 'Spectrum._from_phi_%dD_admix_props' % K else 'abstract')
+        ex.abstract_hook = ah
+        f = ex.func('dadi/Spectrum_mod.py', 'Spectrum._from_phi_%dD_admix_props' % K)
+        ap = tuple(tuple(r) for r in A)
+        paths = ex.run(f, list(ns) + [VList(list(g), 'ndarray') for g in grids] + [phi], dict(mask_corners=False, admix_props=ap), base_pc=hy)
+        if len(paths) != 1 or paths[0].outcome != 'return':
+            return [struct(oid, False, 'expected one returning path: %r' % paths[:2], fn, undecided=True)]
+        res = paths[0].value
+        shape = tuple(n + 1 for n in ns)
+        got_shape = ex.list_method(res, 'shape') if isinstance(res, VList) else None
+        out = [struct(oid + '.shape', got_shape == shape, 'shape %s (got %s)' % (shape, got_shape), fn)]
+        if got_shape != shape:
+            return out
+        w = [_trapz_weights(g) for g in grids]
+        for idx in itertools.product(*[range(s) for s in shape]):
+            want = z3.RealVal(0)
+            for gp in f0:
+                t = f0[gp]
+                for a in range(K):
+                    t = t * w[a][gp[a]]
+                for p in range(K):
+                    u = sum((A[p][q] * grids[q][gp[q]] for q in range(K)), z3.RealVal(0))
+                    t = t * (u if idx[p] == 1 else (1 - u))
+                want = want + t
+            out.append(prove_eq('%s.entry%s' % (oid, '_'.join(map(str, idx))), hy + list(paths[0].pc), _nd_get(res, idx), want, fn, z3_first_ms=500))
+        return out
+    return go()
+
+
+def c06_new_pop_exec(q):
+    """PhiManip constructors phi_2D_to_3D_admix / phi_3D_to_4D / phi_4D_to_5D executed on a 2-point-per-axis grid, helper answered by an abstract
+    result (bracket indices concrete and different per grid point, fractions / normalisation symbolic):
+      * helper gets phi, the fractions of populations 1..K-1 in population order (the last one implied), the K grids in order and the new grid;
+      * new phi[i.., j] = frac_lower*norm at j = lower bracket of grid point i.., frac_upper*norm at the upper bracket, 0 elsewhere
+        (every existing grid point keeps its own bracket: no index is transposed)."""
+    oid = 'C06/PhiManip.py:%s/exec' % q
+    fn = 'dadi/PhiManip.py::' + q
+
+    @guarded(oid, fn)
+    def go():
+        K = {'phi_2D_to_3D_admix': 2, 'phi_3D_to_4D': 3, 'phi_4D_to_5D': 4}[q]
+        G = 2
+        shape = (G,) * K
+        f0 = {i: z3.Real('phi' + '_'.join(map(str, i))) for i in itertools.product(*[range(G)] * K)}
+        phi = _nd_build(shape, lambda i: f0[i])
+        fr = [z3.Real('f%d' % (k + 1)) for k in range(K - 1)]
+        grids = [VList(reals('%s_' % GRIDS[a], G), 'ndarray') for a in range(K + 1)]
+        low = {i: sum((a + 1) * i[a] for a in range(K)) % G for i in f0}
+        up = {i: (low[i] + 1) % G for i in f0}
+        FL = {i: z3.Real('fl' + '_'.join(map(str, i))) for i in f0}
+        FU = {i: z3.Real('fu' + '_'.join(map(str, i))) for i in f0}
+        NM = {i: z3.Real('nm' + '_'.join(map(str, i))) for i in f0}
+        helper = []
+
+        def pol(frf):
+            if frf.qualname.endswith('_admixture_intermediates'):
+                def h(ex_, f_, a, kw):
+                    helper.append((frf.qualname, list(a)))
+                    return (_nd_build(shape, lambda i: low[i]), _nd_build(shape, lambda i: up[i]), _nd_build(shape, lambda i: FL[i]),
+                            _nd_build(shape, lambda i: FU[i]), _nd_build(shape, lambda i: NM[i]))
+                return h
+            return 'inline' if frf.qualname == q else 'abstract'
+        ex = Executor(policy=pol)
+        f = ex.func('dadi/PhiManip.py', q)
+        paths = ex.run(f, [phi] + fr + grids, {})
+        if len(paths) != 1 or paths[0].outcome != 'return' or len(helper) != 1:
+            return [struct(oid, False, 'expected one returning path with one helper call: %r helper=%s' % (paths[:2], [h[0] for h in helper]), fn, undecided=True)]
+        out = []
+        pc = list(paths[0].pc)
+        hn, ha = helper[0]
+        names = {2: '_two_pop', 3: '_three_pop', 4: '_four_pop'}
+        out.append(struct(oid + '.helper', hn == names[K] + '_admixture_intermediates' and ha[0] is phi, 'helper %s on phi' % hn, fn))
+        fargs, gargs = ha[1:K], ha[K:]
+        out.append(struct(oid + '.helper-grids', len(gargs) == K + 1 and all(gargs[a] is grids[a] for a in range(K + 1)), 'the K grids in population order, then the new grid', fn))
+        for k in range(K - 1):
+            out.append(prove_eq('%s.helper-fraction%d' % (oid, k + 1), pc, fargs[k], fr[k], fn))
+        res = paths[0].value
+        new_shape = shape + (G,)
+        got_shape = ex.list_method(res, 'shape') if isinstance(res, VList) else None
+        out.append(struct(oid + '.shape', got_shape == new_shape, 'shape %s (got %s)' % (new_shape, got_shape), fn))
+        if got_shape != new_shape:
+            return out
+        for i in f0:
+            for j in range(G):
+                want = z3.RealVal(0)
+                if j == low[i]:
+                    want = want + FL[i] * NM[i]
+                if j == up[i]:
+                    want = want + FU[i] * NM[i]
+                out.append(prove_eq('%s.entry%s' % (oid, '_'.join(map(str, i + (j,)))), pc, _nd_get(res, i + (j,)), want, fn, finding_key='C06/new-pop-exec/%s' % q))
+        return out
+    return go()
